@@ -120,6 +120,13 @@ func (x *Exec) tryMergeDiamond(s *State, fr *Frame, c *Term, tb, fb *ssa.BasicBl
 			}
 		}
 	}
+	for _, b := range []*State{s1, s2} {
+		for name, as := range b.lastArgs {
+			if old, had := s.lastArgs[name]; !had || len(old) != len(as) || (len(as) > 0 && old[len(old)-1].Term != as[len(as)-1].Term) {
+				delete(s.lastArgs, name)
+			}
+		}
+	}
 	// merge into s
 	for cell, v1 := range s1.cellVal {
 		v2, has := s2.cellVal[cell]
